@@ -11,7 +11,7 @@ from ..core import short_exc, owner_of_exception
 
 PROP = "C04"
 LEVEL = "exploration"
-N = {"quick": 8000, "thorough": 200000}
+N = {"quick": 60000, "thorough": 1200000}
 RULES = ["shortest_processing_time", "first_come_first_served", "most_work_remaining", "most_operations_remaining", "random"]
 SCORES = ["spt", "fcfs", "mwkr_obs", "mopnr"]
 RULE = ("seeded instance (flexible, zero durations, irregular) x rule (5 built-ins by name/enum/callable, score-based "
